@@ -46,9 +46,13 @@ func (s *server) VerifGCLoop() { s.gcloop() }
 // VerifClose releases the storage of every table (what Server.Close does after stopping gRPC).
 func (s *server) VerifClose() {
 	close(s.done)
+	var tbls []*table
 	s.mu.Lock()
-	defer s.mu.Unlock()
 	for _, t := range s.tables {
+		tbls = append(tbls, t)
+	}
+	s.mu.Unlock()
+	for _, t := range tbls {
 		t.mu.Lock()
 		t.rows.Close()
 		t.mu.Unlock()
